@@ -17,6 +17,22 @@ CLAIMS = {
         technique="static analysis: construction-site enumeration + finite-domain abstract evaluation of translator handlers (ast)",
         ref="DESIGN.md §3 C01",
     ),
+    "C13": dict(
+        text=(
+            "Decides C13 for the array classes as far as the structure of the code determines it: (SLC-V) the slice "
+            "normaliser only compares start/stop/size with unit coefficients, so it is piecewise linear with a known "
+            "finite breakpoint family; (SLC-G) __getitem__ of the four array classes, flatten and reshape are "
+            "evaluated by the checker's own abstract evaluator on symbolic element tags for every key of a grid "
+            "that covers every region of that breakpoint family (all ints and all start/stop in [-n-2, n+2] and "
+            "None, steps None,+-1,+-2,+-3, for axis lengths 0..4, plus coordinate lists) and must select exactly "
+            "what Python's list-of-lists indexing selects, with the same shape and the same IndexError/ValueError "
+            "behaviour; (SLC-2) _range_size is proved to be ceil(distance/|step|) symbolically for every step, zero "
+            "step rejected; (SLC-3) the gather offset is row * shape[1] + col."
+        ),
+        note="Trusted: the abstract evaluator (sa/core/fde.py, classworld.py); Python's own slicing as the specification; the small-model argument in DESIGN.md C13 (steps beyond +-3 are covered by SLC-2/SLC-3 only).",
+        technique="static analysis: vocabulary check + finite-domain abstract evaluation of __getitem__ + symbolic ceiling-division identity (ast)",
+        ref="DESIGN.md §3 C13",
+    ),
 }
 
 NOT_APPLICABLE = {
